@@ -3,7 +3,7 @@ import json
 from concurrent.futures import Future
 
 from harness import runner, model
-from harness.env import SpyFuture
+from harness.env import SpyFuture, sub_of
 from harness.oracles import abnormal
 from harness.stackgen import gen_layers
 from harness.stackrun import StackRun, tap_submits, fut_state, state_desc
@@ -54,7 +54,7 @@ def gen(rng, tier):
             r = rng.random()
             if r < 0.3:
                 # land around the end of an attempt: policy evaluation, re-queueing, hand-over
-                clients[c].append(["await", rng.choice(["call-exit", "call-exit", "call-enter"])])
+                clients[c].append(["await", rng.choice(["call-exit", "call-exit", "call-enter", "fn-enter"])])
             else:
                 d = rng.choice([0, 0, 0.02, 0.05, 0.1, 0.15, 0.25, 0.4])
                 if d:
@@ -181,6 +181,12 @@ def run_comb(spec, env):
     env.rec("final-out", state_desc(fut_state(out)) if not isinstance(fut_state(out)[-1], Future) else ["val"])
 
 
+def _tt(x):
+    if isinstance(x, (list, tuple)):
+        return tuple(_tt(y) for y in x)
+    return x
+
+
 def check(spec, env):
     sim = env.sim
     if abnormal(sim):
@@ -208,6 +214,17 @@ def check(spec, env):
         elif e[3] == "call-end":
             ends[(e[4], e[5])] = e
     dsub = [e for e in log if e[3] == "dsubmit"]
+    # windows in which a map / flat-map function of a submission was executing: [begin, end] and thread
+    fn_windows = {}
+    open_fn = {}
+    for e in log:
+        if e[3] == "ufn" and e[4] in ("map", "flat"):
+            sx = sub_of(_tt(e[6]))
+            open_fn[(e[2], e[4], e[5])] = (e[0], sx)
+        elif e[3] == "ufn-end" and (e[2], e[4], e[5]) in open_fn:
+            (b, sx) = open_fn.pop((e[2], e[4], e[5]))
+            if sx is not None:
+                fn_windows.setdefault(sx, []).append((b, e[0]))
     spy_sub = {}   # label -> (seq, sub tag)
     spy_done = {}
     spy_cancels = {}
@@ -241,6 +258,16 @@ def check(spec, env):
             if st is not None and st[0] != "cancelled":
                 out.append({"oracle": "true-cancel-not-cancelled", "sig": "true-cancel-final|%s|%s" % (_cul(spec), st[0]),
                             "msg": "submission %d: cancel() returned True but the future ended %r; layers %s" % (s, state_desc(st), types)})
+        # (2b) a mapping function of this submission executing on another thread for the whole
+        #      cancel() call: the delegate has finished (nothing left to cancel), the outcome is
+        #      being computed - same as a running callable: False
+        if res is True:
+            for (b, e_) in fn_windows.get(s, []):
+                if b < inv and e_ > ret:
+                    out.append({"oracle": "cancelled-while-running", "sig": "true-while-mapping-function-running|%s" % _cul(spec),
+                                "msg": "submission %d: cancel() returned True (events %d..%d) although one of its map / flat-map functions was executing "
+                                       "on another thread for the whole call (events %d..%d); layers %s" % (s, inv, ret, b, e_, types)})
+                    break
         # (2) running throughout => False, and completes normally
         if not has_poll:
             for c in calls.get(s, []):
